@@ -653,6 +653,57 @@ func framerRules(r *engine.Report, p *engine.Program) {
 	sizeIndependentPath(r, p)
 	nameHashRules(r, p)
 	bindOnceRule(r, p, "R3-delivery")
+	// the hand-over to a listener is synchronous: recvChan is unbuffered, so a local sender's
+	// WriteTo returns only after the reader has taken the datagram (the payload slice is the
+	// sender's own buffer — nothing may still reference it after the send returns)
+	{
+		rc := p.Field("netceptor", "PacketConn", "recvChan")
+		n, okU := 0, true
+		for _, a := range p.FieldAccesses(rc) {
+			if a.Kind != engine.AccStore || engine.IsMock(a.Fn) {
+				continue
+			}
+			if mk, isMk := engine.Unwrap(a.Instr.(*ssa.Store).Val).(*ssa.MakeChan); isMk {
+				n++
+				if k, isC := engine.ConstInt(mk.Size); !isC || k != 0 {
+					okU = false
+				}
+			}
+		}
+		r.Check("R3-delivery", "PacketConn.recvChan is unbuffered", token.NoPos, okU && n >= 2,
+			fmt.Sprintf("%d construction sites, all make(chan *MessageData) without capacity", n),
+			"the receive channel is buffered: a same-node WriteTo returns while the queued datagram still points at the sender's buffer, so a sender that reuses its buffer overwrites datagrams that are waiting to be read")
+	}
+	// service names are decoded byte for byte: the decoder returns string(bytes[:k]) of its input
+	if sf := p.Func("netceptor.stringFromFixedLenBytes"); sf != nil {
+		ok := true
+		nRet := 0
+		for _, ret := range engine.Returns(sf) {
+			v := ret.Results[0]
+			if s0, isC := engine.ConstString(v); isC && s0 == "" {
+				continue
+			}
+			nRet++
+			cv, isCv := v.(*ssa.Convert)
+			if !isCv {
+				ok = false
+				continue
+			}
+			sl, isSl := cv.X.(*ssa.Slice)
+			if !isSl || engine.Unwrap(sl.X) != ssa.Value(sf.Params[0]) || sl.Low != nil {
+				ok = false
+			}
+		}
+		for _, ci := range engine.CallsIn(sf) {
+			if o := engine.CalleeObj(ci.Common()); o != nil && (o.Name() == "WriteRune" || o.Name() == "AppendRune" || o.Name() == "EncodeRune") {
+				ok = false
+			}
+		}
+		r.Check("R1-layout", "stringFromFixedLenBytes: a service name is the prefix bytes[:k] of the wire field, converted as bytes", sf.Pos(), ok && nRet > 0,
+			"every non-empty result is string(bytes[:k]) of the input slice; no rune encoding", "the decoder re-encodes the field (rune by rune) or returns something other than a prefix of the wire bytes: service names with bytes >= 0x80 change on the wire, so the datagram goes to a different listener and reports a different source")
+	} else {
+		r.Broken("stringFromFixedLenBytes not found")
+	}
 	// path lengths up to the hop limit: the forwarding budget is tested before it is decremented
 	// and decremented exactly once per relay (clauses decided by C10's rules)
 	{
